@@ -202,3 +202,9 @@ package req
 //@ func (*context).SendMsg
 //@   before call:send#1 assert unchanged("call:cancelSend#1", s.ctxByID)
 //@   before call:send#2 assert unchanged("call:cancelSend#1", s.ctxByID)
+
+// ---- round 10 (C03): request ids are only ever taken, never handed back: the one atomic step on
+// the socket-wide counter is the one before the lock is taken ----
+//@ func (*context).SendMsg
+//@   loop 1 invariant !called_since("call:Lock#1", "AddUint32")
+//@   ensures !called_since("call:Lock#1", "AddUint32")
